@@ -4,101 +4,61 @@ package main
 
 import (
 	"fmt"
-	"image"
-	"time"
 
-	"github.com/makiuchi-d/gozxing"
 	"github.com/makiuchi-d/gozxing/oned"
 	"verifharness/ref/onedref"
 )
 
-func render(mod []bool, q, scale, h int) *image.Gray {
-	w := (2*q + len(mod)) * scale
-	img := image.NewGray(image.Rect(0, 0, w, h))
-	for i := range img.Pix {
-		img.Pix[i] = 255
-	}
-	for y := 0; y < h; y++ {
-		for i, m := range mod {
-			if m {
-				for k := 0; k < scale; k++ {
-					img.Pix[y*img.Stride+(q+i)*scale+k] = 0
-				}
-			}
+func runs(p []bool) []int {
+	var out []int
+	for i := 0; i < len(p); {
+		j := i
+		for j < len(p) && p[j] == p[i] {
+			j++
 		}
+		out = append(out, j-i)
+		i = j
 	}
-	return img
+	return out
 }
 
 func main() {
-	// 1. cost of writer round trip EAN-8 at height 1
-	w := oned.NewEAN8Writer()
-	rd := oned.NewEAN8Reader()
-	t0 := time.Now()
-	n := 200000
-	bad := 0
-	for i := 0; i < n; i++ {
-		c := fmt.Sprintf("%07d", i*37%10000000)
-		m, err := w.Encode(c, gozxing.BarcodeFormat_EAN_8, 0, 1, nil)
-		if err != nil {
-			panic(err)
+	for _, s := range []string{"01001423", "16000478", "16003007"} {
+		p := onedref.UPCEPattern(s)
+		fmt.Println("symbol", s, onedref.PatternString(p))
+		rev := make([]bool, len(p))
+		for i := range p {
+			rev[i] = p[len(p)-1-i]
 		}
-		bmp, _ := gozxing.NewBinaryBitmapFromImage(m)
-		res, err := rd.Decode(bmp, nil)
-		if err != nil || res.GetText()[:7] != c {
-			bad++
-		}
-	}
-	fmt.Println("ean8 roundtrip per item", time.Since(t0)/time.Duration(n), "bad", bad)
-	// 2. cost of failing decode on 1px h1 image
-	t0 = time.Now()
-	got := 0
-	for i := 0; i < n; i++ {
-		c := fmt.Sprintf("%07d", i*37%10000000)
-		ck := onedref.Mod10(c)
-		s := c + string(rune('0'+(ck+1+i%9)%10))
-		img := render(onedref.EAN8Pattern(s), 10, 1, 1)
-		bmp, _ := gozxing.NewBinaryBitmapFromImage(img)
-		_, err := rd.Decode(bmp, nil)
-		if err == nil {
-			got++
-		}
-	}
-	fmt.Println("ean8 stale decode per item", time.Since(t0)/time.Duration(n), "read", got)
-	// 3. UPC-E all symbols of a slice: stale reads
-	ue := oned.NewUPCEReader()
-	t0 = time.Now()
-	total, other, same, okv := 0, 0, 0, 0
-	shown := 0
-	for v := 0; v < 1000000; v += 7 {
-		d6 := fmt.Sprintf("%06d", v)
-		for ns := 0; ns < 2; ns++ {
-			for ck := 0; ck < 10; ck++ {
-				s := string(rune('0'+ns)) + d6 + string(rune('0'+ck))
-				valid := onedref.Mod10(onedref.UPCEExpand(d6, byte('0'+ns))) == ck
-				img := render(onedref.UPCEPattern(s), 10, 1, 1)
-				bmp, _ := gozxing.NewBinaryBitmapFromImage(img)
-				res, err := ue.Decode(bmp, nil)
-				total++
-				if valid {
-					if err == nil && res.GetText() == s {
-						okv++
-					}
-					continue
+		fmt.Println("reversed   ", onedref.PatternString(rev))
+		r := runs(rev)
+		fmt.Println("runs (bar first):", r)
+		// reader: start guard = runs 0..2, digit k = runs 3+4k..7+4k, end = runs 27..33
+		fmt.Println(" start guard", r[0:3])
+		for k := 0; k < 6; k++ {
+			win := r[3+4*k : 7+4*k]
+			tot := 0
+			for _, v := range win {
+				tot += v
+			}
+			best, bi := 9.9, -1
+			for i, pat := range oned.UPCEANReader_L_AND_G_PATTERNS {
+				sc := make([]int, 4)
+				for j := range win {
+					sc[j] = win[j] * 3
 				}
-				if err == nil {
-					if res.GetText() == s {
-						same++
-					} else {
-						other++
-						if shown < 8 {
-							shown++
-							fmt.Println("stale", s, "read as", res.GetText(), res.GetResultMetadata())
-						}
-					}
+				v := oned.PatternMatchVariance(sc, pat, oned.UPCEANReader_MAX_INDIVIDUAL_VARIANCE)
+				if v < best {
+					best, bi = v, i
 				}
 			}
+			fmt.Printf(" digit %d window %v total %d modules -> best %d (set %s) variance %.3f (limit 0.48), matched pattern %v\n", k, win, tot, bi%10, map[bool]string{false: "L", true: "G"}[bi >= 10], best, oned.UPCEANReader_L_AND_G_PATTERNS[bi])
 		}
+		end := r[27:33]
+		sc := make([]int, 6)
+		for j := range end {
+			sc[j] = end[j] * 3
+		}
+		fmt.Printf(" end guard window %v variance %.3f vs {1,1,1,1,1,1}\n", end, oned.PatternMatchVariance(sc, oned.UPCEANReader_END_PATTERN, 0.7))
 	}
-	fmt.Println("upce symbols", total, "valid read", okv, "stale read same", same, "stale read other", other, "per item", time.Since(t0)/time.Duration(total))
 }
